@@ -214,7 +214,7 @@ func runEvents(op string) (out string) {
 			sent[k] = ev
 			mu.Unlock()
 			var once sync.Once
-			env.Cluster.AfterRegister = func(c *fakecass.Conn) {
+			env.Cluster.SetAfterRegister(func(c *fakecass.Conn) {
 				once.Do(func() {
 					f := frame.NewFrame(c.Version, -1, ev)
 					var buf bytes.Buffer
@@ -222,7 +222,7 @@ func runEvents(op string) (out string) {
 						_ = c.WriteRaw(buf.Bytes())
 					}
 				})
-			}
+			})
 			for _, ip := range env.Cluster.NodeIPs() {
 				env.Cluster.Node(ip).DropConns(func(c interface{ Registered() bool }) bool { return c.Registered() })
 			}
@@ -232,7 +232,7 @@ func runEvents(op string) (out string) {
 				anomalies = append(anomalies, "control-connection-not-restored")
 				mu.Unlock()
 			}
-			env.Cluster.AfterRegister = nil
+			env.Cluster.SetAfterRegister(nil)
 			time.Sleep(30 * time.Millisecond)
 			quiesce()
 		case 'x':
